@@ -269,7 +269,8 @@ fn run(cx: &Cx) {
             let fields2: Vec<(&str, &[&str])> = fields.iter().map(|(t, fs)| (*t, fs.as_slice())).collect();
             let conds: Vec<&str> = v.conds.iter().map(|s| s.as_str()).collect();
             let gcfg = GenCfg { schema: &v.ir, fields: &fields2, conds: &conds, max_nodes: if v.exemplar { nodes } else { nodes - 1 }, max_depth: 3, named_fragments: 1, deco: Some(Class::Dev(0)), typename: true, op: OpKind::Query, root_fragments: true };
-            (vi, run_static2(&v.ir, &Target::Dynamic(&v.schema), &gcfg, ch, menu, Class::Dev(1), Some(Class::Dev(2)), None))
+            let filter = agv_common::dynamic::world_filter(&v.ir);
+            (vi, run_static2(&v.ir, &Target::Dynamic(&v.schema), &gcfg, ch, menu, Class::Dev(1), Some(Class::Dev(2)), Some(&filter)))
         },
         &|_, (vi, o)| match o {
             CaseOutcome::NotDoc => {
@@ -311,6 +312,7 @@ fn run(cx: &Cx) {
     cx.extra("invalid_by_reference_validator", json!(cnt.invalid.load(Ordering::Relaxed)));
     cx.extra("agreements_nonempty", json!(cnt.agree.load(Ordering::Relaxed)));
     cx.extra("cases_with_wrong_kind_value", json!(cnt.wrong_kind_cases.load(Ordering::Relaxed)));
+    cx.assume("a null list item of an OBJECT type cannot be expressed through the dynamic API (FieldValue::NULL is accepted as an object's parent value; the repo's own tests rely on that), so worlds do not contain one");
     cx.assume("the property says 'randomly generated dynamic type systems': here the family is enumerated (exemplars × all single/pair edits), not sampled");
 }
 
